@@ -42,6 +42,7 @@ META = {
 
 ALPHABET = ["a", "é", "€", "\U0001F600", "\n", "\r"]
 U32 = 2 ** 32
+JUNK_LINE = 4242      # sent as the `line` of lsp_pos requests: the conversion must ignore it
 
 
 # ---------------------------------------------------------------------------
@@ -187,8 +188,8 @@ def correspondence(ctx, exe, mdl, docs, tag):
         offs = list(range(blen + 3))
         lcs = [(l, c) for l in range(ml + 1) for c in range(mc + 1)]
         for o in offs:
-            # `line` = the lexer's line number of that offset (LF count before it)
-            reqs.append({"op": "lsp_pos", "src": d, "offset": o, "line": d.encode("utf-8")[:o].count(b"\n")})
+            # `line` is what a caller used to supply; the function must not depend on it
+            reqs.append({"op": "lsp_pos", "src": d, "offset": o, "line": JUNK_LINE})
         for lc in lcs:
             reqs.append({"op": "lsp_pos", "src": d, "line_char": list(lc)})
         index.append((len(offs), len(lcs)))
@@ -235,17 +236,13 @@ def correspondence(ctx, exe, mdl, docs, tag):
                 continue
             diffs = []
             for k in range(noff):
-                # the model's line_of must be the LF count the driver sent as `line`
+                # the model's line_of (the lexer's line number) must be the LF count before the offset
                 lf = d.encode("utf-8")[:k].count(b"\n")
                 mpos, mline, mb = m_o2p[k]
                 if mb and mline != lf:
                     diffs.append("line_of(%d): model %d, LF-count %d" % (k, mline, lf))
-                exp = mpos
-                if not mb and mpos != "P":
-                    # offset past the end: model used line 0, the driver sent the LF count; only the column matters
-                    exp = "%d,%s" % (lf % U32, mpos.split(",")[1])
-                if i_o2p[k] != exp:
-                    diffs.append("offset_to_lsp_position(%d): impl %s, model %s" % (k, i_o2p[k], exp))
+                if i_o2p[k] != mpos:
+                    diffs.append("offset_to_lsp_position(%d): impl %s, model %s" % (k, i_o2p[k], mpos))
             for k in range(nlc):
                 if i_lc[k] != m_lc[k]:
                     diffs.append("line_char_to_offset(%d,%d): impl %s, model %s"
@@ -285,6 +282,16 @@ def between_cr_lf(text, idx):
     return 0 < idx < len(text) and text[idx - 1] == "\r" and text[idx] == "\n"
 
 
+def report(ctx, key, what, replay):
+    """One replay per failing-input class (the first, i.e. smallest, input); the rest are counted."""
+    ctx.stat("failing inputs " + key)
+    seen = ctx.cov.setdefault("reported_keys", [])
+    if key in seen:
+        return
+    seen.append(key)
+    ctx.violation(key, what, replay)
+
+
 def property_search(ctx, impl, tag, spans=True):
     """impl: {doc: (o2p, lc grid, whole_end, ml, mc)} as answered by the real functions."""
     for d, (o2p, lc, whole, ml, mc) in impl.items():
@@ -297,14 +304,14 @@ def property_search(ctx, impl, tag, spans=True):
             p = o2p[o]
             ctx.stat("roundtrip offsets")
             if p == "P" or p.startswith("?"):
-                ctx.violation("C29:roundtrip:panic", "offset_to_lsp_position(%r, %d) on a character boundary: %s" % (d, o, p),
+                report(ctx, "C29:roundtrip:panic", "offset_to_lsp_position(%r, %d) on a character boundary: %s" % (d, o, p),
                               {"kind_of_case": "roundtrip", "doc": d, "offset": o, "observed": p})
                 continue
             l, c = (int(x) for x in p.split(","))
             pos_of[o] = (l, c)
             back = lc[l * (mc + 1) + c] if l <= ml and c <= mc else None
             if back != o:
-                ctx.violation("C29:roundtrip:%s" % cls,
+                report(ctx, "C29:roundtrip:%s" % cls,
                               "offset %d of %r -> (%d,%d) -> offset %s" % (o, d, l, c, back),
                               {"kind_of_case": "roundtrip", "doc": d, "offset": o, "position": [l, c],
                                "expected": o, "observed": back})
@@ -313,7 +320,7 @@ def property_search(ctx, impl, tag, spans=True):
             got = apply_edit(d, rng(0, 0, whole[0], whole[1]), T_NEW)
             ctx.stat("whole-range edits")
             if got != T_NEW:
-                ctx.violation("C29:lone-cr:whole-range" if cls == "lone-cr" else "C29:whole-range:%s" % cls,
+                report(ctx, "C29:lone-cr:whole-range" if cls == "lone-cr" else "C29:whole-range:%s" % cls,
                               "replacing whole_document_range(%r) = (0,0)-(%d,%d) by %r as the LSP specification "
                               "defines gives %r" % (d, whole[0], whole[1], T_NEW, got),
                               {"kind_of_case": "whole-range", "doc": d, "whole_end": list(whole), "new_text": T_NEW,
@@ -335,7 +342,7 @@ def property_search(ctx, impl, tag, spans=True):
                     # predicted by range_edit_mid_crlf_refuted; no token starts or ends there
                     ctx.stat("span edits with an end between CR and LF (differ, as range_edit_mid_crlf_refuted says)")
                     continue
-                ctx.violation("C29:lone-cr:span-edit" if cls == "lone-cr" else "C29:span-edit:%s" % cls,
+                report(ctx, "C29:lone-cr:span-edit" if cls == "lone-cr" else "C29:span-edit:%s" % cls,
                               "span %d..%d of %r sent as (%d,%d)-(%d,%d): the specification applier gives %r, the byte "
                               "splice %r" % (a, b, d, l1, c1, l2, c2, got, want),
                               {"kind_of_case": "span-edit", "doc": d, "span": [a, b], "range": [l1, c1, l2, c2],
@@ -393,9 +400,9 @@ def big_values(ctx, exe, mdl):
     for d in docs:
         blen = len(d.encode("utf-8"))
         for v in bigs:
-            for (o, l) in ((v, 0), (blen, v), (v, v), (0, v)):
-                reqs.append({"op": "lsp_pos", "src": d, "offset": o, "line": l})
-                lines.append("lsp_o2p\t%s\t%d\t%d" % (common.hexs(d), o, l))
+            for o in (v, v - 1):
+                reqs.append({"op": "lsp_pos", "src": d, "offset": o, "line": v})
+                lines.append("lsp_o2p\t%s\t%d" % (common.hexs(d), o))
             for (l, c) in ((v, 0), (0, v), (v, v), (1, v)):
                 reqs.append({"op": "lsp_pos", "src": d, "line_char": [l, c]})
                 lines.append("lsp_lc2o\t%s\t%d\t%d" % (common.hexs(d), l, c))
@@ -435,3 +442,378 @@ def lexer_lines(ctx, exe, docs):
                    "e.g. %r" % (len(bad), bad[:2]))
 
 
+# ---------------------------------------------------------------------------
+# End to end: the real `garden lsp` server, edits applied by the specification applier, vs the CLI refactorings
+
+TEMPLATES = [
+    'fun foo(x: Int): Int {\n  let s = "@S@" // @C@\n  let \x03y = \x01x + 1\x02 println("@T@") let w = \x01\x03y * 2\x02\n'
+    '  if y > 2 { \x03w } else { \x01\x03x * 2\x02 }\n}\n',
+    '// @C@\nfun greet(name: String): String {\n  let greeting = "@S@" let full = \x01greeting.concat(\x03name)\x02 // @C@\n'
+    '  \x03full\n}\n\nfun other() {\n  let msg = "@T@" println(\x01\x03msg\x02)\n}\n',
+    'enum Shape { Circle(Int), Square }\n\nfun area(sh: Shape): Int {\n  let label = "@S@" let r = \x01\x03sh\x02 // @C@\n'
+    '  println(label) match \x03r { Circle(n) => \x01\x03n * n\x02 Square => 1 }\n}\n',
+    'fun shout(p: String) {\n     let q = "@S@".\x01lenn\x02() println("@T@".concat(\x03p))   \n  println(\x01\x03q\x02) // @C@\n}\n',
+    'fun pair(a: Int, b: Int): Int {\n  let t = "@S@" /* plain */ let c = "@T@" let u = \x01\x03a + \x03b\x02\n  println(t) println(c)\n  \x03u\n}',
+    # quick fixes whose position is not a token span: "Remove unused value" takes the whole line (its end offset is
+    # past the newline), the repeated-operand fix starts on the previous line
+    'fun lit() {\n  \x01"@S@"\x02\n  println("@T@")\n}\n',
+    'fun num(k: Int) {\n  println("@S@") // @C@\n  \x0142\x02\n  println(k)\n}\n',
+    'fun rb(x: Bool): Bool {\n  println("@S@") \x01x ||\n    x\x02\n}\n',
+]
+STRS = ["abc", "é", "€😀", "😀é😀", "x\\ny", "é\n😀", "\U0001F468\u200d\U0001F469 ß"]
+CMTS = ["note", "é€", "😀 x 😀"]
+EOLS = ["lf", "crlf", "lf", "crlf", "mixed", "lone-cr"]
+TITLE_CLI = {
+    "Extract variable": lambda f, a, b: ["reftest-extract-variable", f, str(a), str(b), "--name", "extracted"],
+    "Extract function": lambda f, a, b: ["reftest-extract-function", f, str(a), str(b), "--name", "extracted"],
+    "Wrap in dbg()": lambda f, a, b: ["reftest-wrap-in-dbg", f, str(a), str(b)],
+    "Add type annotation": lambda f, a, b: ["reftest-add-type-annotation", f, str(a), str(b)],
+    "Destructure enum": lambda f, a, b: ["reftest-destructure", f, str(a), str(b)],
+}
+
+
+def gen_program(r, k):
+    t = TEMPLATES[k % len(TEMPLATES)]
+    t = t.replace("@S@", r.choice(STRS)).replace("@T@", r.choice(STRS))
+    while "@C@" in t:
+        t = t.replace("@C@", r.choice(CMTS), 1)
+    eol = EOLS[(k % len(TEMPLATES) + k // len(TEMPLATES)) % len(EOLS)]
+    if eol == "crlf":
+        t = t.replace("\n", "\r\n")
+    elif eol == "mixed":
+        t = "".join(("\r\n" if (ch == "\n" and r.random() < 0.5) else ch) for ch in t)
+    elif eol == "lone-cr":
+        nl = [i for i, ch in enumerate(t) if ch == "\n"]
+        i = r.choice(nl[:-1] or nl)
+        t = t[:i] + "\r" + t[i + 1:]
+    text, spans, idents, open_ = [], [], [], None
+    for ch in t:
+        n = len(text)
+        if ch == "\x01":
+            open_ = n
+        elif ch == "\x02":
+            spans.append((open_, n))
+        elif ch == "\x03":
+            idents.append(n)
+        else:
+            text.append(ch)
+    return "".join(text), spans, idents, eol
+
+
+def rust_lines(text):
+    out = []
+    for piece in text.split("\n"):
+        out.append(piece)
+    if out and out[-1] == "":
+        out.pop()
+    else:
+        # the final piece has no "\n": it is yielded unchanged
+        return [l[:-1] if l.endswith("\r") else l for l in out[:-1]] + out[-1:]
+    return [l[:-1] if l.endswith("\r") else l for l in out]
+
+
+def check_cli_view(text):
+    """`garden check` reads the file through remove_testing_footer: lines() re-joined with "\n" (CRLF -> LF, final
+    newline added).  The quick-fix comparison is made modulo this normalisation of the command line's input."""
+    out = []
+    for l in rust_lines(text):
+        if l.startswith("// args: "):
+            break
+        out.append(l + "\n")
+    return "".join(out)
+
+
+def spec_position(text, idx):
+    """The LSP position a client would send for code point index idx (None between CR and LF)."""
+    if between_cr_lf(text, idx):
+        return None
+    ls = spec_lines(text)
+    for ln in range(len(ls) - 1, -1, -1):
+        if ls[ln][0] <= idx:
+            return ln, u16len(text[ls[ln][0]:idx])
+    return 0, 0
+
+
+def frame(o):
+    b = json.dumps(o).encode("utf-8")
+    return b"Content-Length: %d\r\n\r\n" % len(b) + b
+
+
+def parse_frames(b):
+    out, i = [], 0
+    while True:
+        j = b.find(b"Content-Length:", i)
+        if j < 0:
+            break
+        k = b.find(b"\r\n\r\n", j)
+        if k < 0:
+            break
+        n = int(b[j + 15:k].split(b"\r\n")[0].strip())
+        body = b[k + 4:k + 4 + n]
+        try:
+            out.append(json.loads(body.decode("utf-8")))
+        except Exception:
+            out.append({"unparsable": body[:200].decode("utf-8", "replace")})
+        i = k + 4 + n
+    return out
+
+
+def lsp_session(exe, uri, text, requests, timeout=60):
+    """One `garden lsp` process over stdio. requests: [(id, method, params)]. Returns ({id: message}, rc, stderr)."""
+    msgs = [{"jsonrpc": "2.0", "id": 0, "method": "initialize", "params": {"capabilities": {}}},
+            {"jsonrpc": "2.0", "method": "initialized", "params": {}},
+            {"jsonrpc": "2.0", "method": "textDocument/didOpen",
+             "params": {"textDocument": {"uri": uri, "languageId": "garden", "version": 1, "text": text}}}]
+    for (i, m, p) in requests:
+        msgs.append({"jsonrpc": "2.0", "id": i, "method": m, "params": p})
+    msgs.append({"jsonrpc": "2.0", "id": 999999, "method": "shutdown"})
+    msgs.append({"jsonrpc": "2.0", "method": "exit"})
+    env = dict(os.environ)
+    env["RUST_BACKTRACE"] = "0"
+    try:
+        p = subprocess.run([exe, "lsp"], input=b"".join(frame(m) for m in msgs), capture_output=True, timeout=timeout, env=env)
+        rc, out, err = p.returncode, p.stdout, p.stderr.decode("utf-8", "replace")
+    except subprocess.TimeoutExpired as e:
+        rc, out, err = 124, e.stdout or b"", "timeout"
+    by_id = {}
+    for m in parse_frames(out):
+        if "id" in m and m.get("id") is not None and "method" not in m:
+            by_id[m["id"]] = m
+    return by_id, rc, err
+
+
+def e2e_one(exe, d, k, text, spans, idents):
+    """Returns a list of result records for one program."""
+    f = os.path.join(d, "p%d.gdn" % k)
+    with open(f, "wb") as fh:
+        fh.write(text.encode("utf-8"))
+    uri = "file://" + f
+    tdoc = {"uri": uri}
+    reqs = [(1, "textDocument/formatting", {"textDocument": tdoc, "options": {"tabSize": 2, "insertSpaces": True}})]
+    plan = [("formatting", 1, None)]
+    for n, idx in enumerate(idents):
+        sp = spec_position(text, idx)
+        if sp is None:
+            continue
+        reqs.append((100 + n, "textDocument/rename",
+                     {"textDocument": tdoc, "position": {"line": sp[0], "character": sp[1]}, "newName": "zz9"}))
+        plan.append(("rename", 100 + n, idx))
+    for n, (a, b) in enumerate(spans):
+        pa, pb = spec_position(text, a), spec_position(text, b)
+        if pa is None or pb is None:
+            continue
+        reqs.append((200 + n, "textDocument/codeAction",
+                     {"textDocument": tdoc, "range": rng(pa[0], pa[1], pb[0], pb[1]), "context": {"diagnostics": []}}))
+        plan.append(("code-action", 200 + n, (a, b)))
+    # every quick fix of the document: comparable with `garden check --fix` when there is exactly one
+    reqs.append((300, "textDocument/codeAction",
+                 {"textDocument": tdoc, "range": rng(0, 0, 1000000, 0), "context": {"diagnostics": []}}))
+    plan.append(("quickfix", 300, None))
+    by_id, rc, err = lsp_session(exe, uri, text, reqs)
+    recs = []
+
+    def boff(i):
+        return len(text[:i].encode("utf-8"))
+
+    def cli(args):
+        crc, out, cerr = oracle.garden_cli(exe, args, timeout=60)
+        return crc, out, cerr
+
+    def compare(feature, what, edits, cargs, request, view=lambda t: t, title=None):
+        crc, cout, cerr = cli(cargs)
+        rec = {"feature": feature, "what": what, "cli": cargs, "cli_rc": crc, "request": request, "edits": edits,
+               "title": title}
+        if crc in (101, 124) or "panicked at" in cerr:
+            rec["verdict"] = "cli-crashed"
+        elif edits is None:
+            rec["verdict"] = "ok-both-decline" if crc != 0 else "server-declines"
+            rec["expected"] = cout
+        elif crc != 0:
+            rec["verdict"] = "cli-declines"
+        else:
+            got = apply_edits(text, edits)
+            rec["expected"], rec["observed"] = cout, got
+            rec["verdict"] = "ok" if (got is not None and view(got) == cout) else "mismatch"
+        recs.append(rec)
+
+    for (feature, rid, arg) in plan:
+        m = by_id.get(rid)
+        if m is None or "error" in m:
+            recs.append({"feature": "code-action" if feature == "quickfix" else feature, "what": str(arg),
+                         "verdict": "no-response", "server_rc": rc,
+                         "stderr": err[-300:], "response": m})
+            continue
+        res = m.get("result")
+        if feature == "formatting":
+            compare(feature, "whole document", res if res else None, ["format", f], "textDocument/formatting")
+        elif feature == "quickfix":
+            quick = [((act.get("edit") or {}).get("changes") or {}).get(uri) for act in res or []
+                     if act.get("kind") == "quickfix"]
+            if len(quick) == 1:
+                compare("code-action", "the only quick fix (%s)" % [a.get("title") for a in res if a.get("kind") == "quickfix"][0],
+                        quick[0], ["check", "--fix", "--stdout", f], reqs[-1][2], view=check_cli_view, title="quickfix")
+        elif feature == "rename":
+            edits = None
+            if res and res.get("changes"):
+                edits = res["changes"].get(uri)
+            compare(feature, "identifier at code point %d" % arg, edits,
+                    ["reftest-rename", f, str(boff(arg)), "--new-name", "zz9"], reqs[[r[0] for r in reqs].index(rid)][2])
+        else:
+            a, b = arg
+            offered = {}
+            for act in res or []:
+                if act.get("kind") != "quickfix":
+                    offered[act.get("title")] = ((act.get("edit") or {}).get("changes") or {}).get(uri)
+            rq = reqs[[r[0] for r in reqs].index(rid)][2]
+            for title, mk in TITLE_CLI.items():
+                if title in ("Extract variable", "Extract function") and a >= b:
+                    continue
+                compare("code-action", "%s on %d..%d" % (title, a, b), offered.get(title), mk(f, boff(a), boff(b)), rq,
+                        title=title)
+    return recs
+
+
+def end_to_end(ctx, exe):
+    import concurrent.futures
+    n = (4 if ctx.thorough else 1) * len(TEMPLATES) * len(EOLS)
+    r = ctx.rng
+    progs = [gen_program(r, k) for k in range(n)]
+    d = tempfile.mkdtemp(prefix="c29-", dir=oracle.scratch_dir())
+    try:
+        with concurrent.futures.ThreadPoolExecutor(common.NCPU) as ex:
+            allrecs = list(ex.map(lambda kp: e2e_one(exe, d, kp[0], kp[1][0], kp[1][1], kp[1][2]), enumerate(progs)))
+    finally:
+        shutil.rmtree(d, ignore_errors=True)
+    for (text, spans, idents, eol), recs in zip(progs, allrecs):
+        cls = doc_class(text)
+        for rec in recs:
+            v = rec["verdict"]
+            ctx.case({"e2e": rec["feature"], "what": rec["what"], "doc": text}, True)
+            ctx.stat("e2e %s %s" % (rec["feature"], v))
+            ctx.stat("e2e documents " + eol, 0)
+            if v in ("ok", "ok-both-decline", "cli-crashed"):
+                continue
+            key = ("C29:lone-cr:%s" % rec["feature"]) if cls == "lone-cr" else "C29:e2e:%s:%s:%s" % (rec["feature"], v, cls)
+            what = {"mismatch": "edits applied as the LSP specification defines differ from the command-line result",
+                    "server-declines": "the server returned no edit but the command line performs the refactoring",
+                    "cli-declines": "the server returned an edit but the command line refuses",
+                    "no-response": "the server did not answer"}[v]
+            report(ctx, key, "%s (%s, %s) on %r" % (what, rec["feature"], rec["what"], text),
+                          {"kind_of_case": "e2e", "doc": text, "feature": rec["feature"], "what": rec["what"],
+                           "request": rec.get("request"), "edits": rec.get("edits"), "cli_args": rec.get("cli"),
+                           "expected": rec.get("expected"), "observed": rec.get("observed"), "verdict": v,
+                           "title": rec.get("title"),
+                           "cli_command": "garden lsp (didOpen + request) vs garden " + " ".join(rec.get("cli") or [])})
+    for e in set(p[3] for p in progs):
+        ctx.stat("e2e documents " + e, sum(1 for p in progs if p[3] == e))
+
+
+def run(ctx):
+    ctx.trusted = [
+        "Coq 8.16.1 kernel (coqc); vm_compute for the witness lemmas",
+        "coq/LspPos.v reading of Rust std (str slicing, rfind/find, lines(), char_indices, len_utf8/16, `as u32`) and of "
+        "the LSP 3.17 specification of Position/Range/TextEdit -- modelled, not verified",
+        "Extraction (ExtrOcamlBasic only) + ocaml/driver_core.ml, ops_lsppos.ml (UTF-8 decoding)",
+        "cfg(wilfred_garden_verif) hook `verif-batch` ops lsp_pos (calls the three functions directly) and lex",
+        "Python JSON-RPC client for `garden lsp` and the Python specification applier (cross-checked against the "
+        "extracted Coq applier)",
+    ]
+    ctx.coq("Properties/C29.v")
+    exe = ctx.impl()
+    mdl = ctx.model()
+    if not exe:
+        return
+    docs = list(all_docs(5 if ctx.thorough else 4))
+    impl = correspondence(ctx, exe, mdl, docs, "exhaustive")
+    property_search(ctx, impl, "exhaustive")
+    r = ctx.rng
+    rdocs = [random_doc(r, r.randint(5, 30)) for _ in range(1500 if ctx.thorough else 150)]
+    rimpl = correspondence(ctx, exe, mdl, rdocs, "random")
+    property_search(ctx, rimpl, "random")
+    ctx.log("property search on the implementation's answers done")
+    if mdl:
+        applier_crosscheck(ctx, mdl, list(all_docs(4)) + rdocs[:100])
+        big_values(ctx, exe, mdl)
+    ctx.log("specification applier cross-checked; huge values done")
+    progs = [gen_program(r, k)[0] for k in range(30)]
+    lexer_lines(ctx, exe, progs + [d for d in rdocs if "\n" in d][:50])
+    ctx.log("end to end: real LSP server vs command line")
+    end_to_end(ctx, exe)
+    ctx.notes.append("the line numbers in garden positions are taken to be the lexer's LF count (LspPos.line_of); "
+                     "multi-line tokens carry end_line_number = start line (C23), which reaches LSP ranges only through "
+                     "quick-fix positions ending in a multi-line string")
+    ctx.notes.append("spans with an end between CR and LF cannot be expressed by an LSP position "
+                     "(range_edit_mid_crlf_refuted); counted, not reported: no garden token starts or ends there")
+
+
+def replay(ctx, rp):
+    exe = ctx.impl()
+    kind = rp.get("kind_of_case")
+    d = rp.get("doc", "")
+    print("document:", repr(d))
+    if kind == "roundtrip":
+        o = rp["offset"]
+        r1 = oracle.batch(exe, [{"op": "lsp_pos", "src": d, "offset": o, "line": JUNK_LINE}], shards=1)[0]
+        print("offset_to_lsp_position(%d) ->" % o, r1)
+        if "position" not in r1:
+            return 1
+        r2 = oracle.batch(exe, [{"op": "lsp_pos", "src": d, "line_char": r1["position"]}], shards=1)[0]
+        print("line_char_to_offset%r ->" % (tuple(r1["position"]),), r2.get("offset"), "| expected", o)
+        return 0 if r2.get("offset") == o else 1
+    if kind == "whole-range":
+        r1 = oracle.batch(exe, [{"op": "lsp_pos", "src": d}], shards=1)[0]
+        we = r1.get("whole_end")
+        got = apply_edit(d, rng(0, 0, we[0], we[1]), rp["new_text"])
+        print("whole_document_range end:", we, "| applied:", repr(got), "| expected:", repr(rp["new_text"]))
+        return 0 if got == rp["new_text"] else 1
+    if kind == "span-edit":
+        a, b = rp["span"]
+        bs = d.encode("utf-8")
+        q = [{"op": "lsp_pos", "src": d, "offset": o, "line": JUNK_LINE} for o in (a, b)]
+        r = oracle.batch(exe, q, shards=1)
+        (l1, c1), (l2, c2) = r[0]["position"], r[1]["position"]
+        got = apply_edit(d, rng(l1, c1, l2, c2), rp["new_text"])
+        want = (bs[:a] + rp["new_text"].encode("utf-8") + bs[b:]).decode("utf-8")
+        print("range:", (l1, c1, l2, c2), "| applied:", repr(got), "| byte splice:", repr(want))
+        return 0 if got == want else 1
+    if kind == "e2e":
+        tmp = tempfile.mkdtemp(prefix="c29-replay-", dir=oracle.scratch_dir())
+        try:
+            f = os.path.join(tmp, "p0.gdn")
+            with open(f, "wb") as fh:
+                fh.write(d.encode("utf-8"))
+            uri = "file://" + f
+            method = {"formatting": "textDocument/formatting", "rename": "textDocument/rename",
+                      "code-action": "textDocument/codeAction", "quickfix": "textDocument/codeAction"}[rp["feature"]]
+            params = rp["request"] if isinstance(rp["request"], dict) else \
+                {"textDocument": {"uri": uri}, "options": {"tabSize": 2, "insertSpaces": True}}
+            params = json.loads(json.dumps(params))
+            params["textDocument"] = {"uri": uri}
+            by_id, rc, err = lsp_session(exe, uri, d, [(1, method, params)])
+            print("server response:", json.dumps(by_id.get(1), ensure_ascii=False)[:2000])
+            res = (by_id.get(1) or {}).get("result")
+            edits = None
+            if rp["feature"] == "formatting":
+                edits = res or None
+            elif rp["feature"] == "rename":
+                edits = ((res or {}).get("changes") or {}).get(uri)
+            else:
+                for act in res or []:
+                    if (rp.get("title") == "quickfix" and act.get("kind") == "quickfix") or act.get("title") == rp.get("title"):
+                        edits = ((act.get("edit") or {}).get("changes") or {}).get(uri)
+            args = [(f if (a.endswith(".gdn")) else a) for a in rp["cli_args"]]
+            crc, out, cerr = oracle.garden_cli(exe, args)
+            print("command line (garden %s): rc=%d" % (" ".join(args), crc))
+            print(out)
+            got = apply_edits(d, edits) if edits is not None else None
+            if got is not None and args[0] == "check":
+                got = check_cli_view(got)
+            print("edits applied as the LSP specification defines:", repr(got))
+            print("recorded verdict:", rp.get("verdict"))
+            if edits is None:
+                return 0 if crc != 0 else 1
+            return 0 if (crc == 0 and got == out) else 1
+        finally:
+            shutil.rmtree(tmp, ignore_errors=True)
+    print("unknown replay kind", kind)
+    return 2
